@@ -673,6 +673,11 @@ impl<'a> Run<'a> {
         }
         match (rec, r) {
             (None, Err(e)) if e.code == tonic::Code::NotFound => {}
+            (None, Ok(_)) if self.model.recs.keys().any(|(u2, d2)| *d2 == d && *u2 != u) => vs.push(viol(
+                "C06",
+                "other_users_data_revealed",
+                format!("{at}: user {u} holds nothing for dispute {d} but get_appointment returned data (another user holds that locator)"),
+            )),
             (None, other) => vs.push(viol(
                 "C01",
                 "get_absent_record",
@@ -707,6 +712,19 @@ impl<'a> Run<'a> {
                                 format!("{at}: get_appointment(user {u}, dispute {d}) does not report exactly that dispute and penalty"),
                             ));
                         }
+                    }
+                    (RecState::Watched, Some(AD::Tracker(_)))
+                        if self
+                            .model
+                            .recs
+                            .iter()
+                            .any(|((u2, d2), r2)| *d2 == d && *u2 != u && r2.state == RecState::Responded) =>
+                    {
+                        vs.push(viol(
+                            "C06",
+                            "other_users_tracker_revealed",
+                            format!("{at}: user {u}'s appointment for dispute {d} is only being watched, but get_appointment returned a tracker (another user's response for the same locator)"),
+                        ))
                     }
                     (RecState::Watched, _) => vs.push(viol(
                         "C02",
